@@ -13,5 +13,6 @@ RULES = [
     ("C06.replace", lambda c, r: lfht.rule_replace(c, r, "C06.replace")),
     ("C06.filter", lambda c, r: lfht.rule_filter(c, r, "C06.filter")),
     ("C06.pub", lambda c, r: lfht.rule_pub(c, r, "C06.pub")),
+    ("C06.iter", lambda c, r: lfht.rule_iter(c, r, "C06.iter")),
 ]
 FLOORS = {}
